@@ -1,29 +1,12 @@
 ------------------------------- MODULE RegexGen -------------------------------
 (* Generator: every token string up to MaxLen over Tokens (well-formed and ill-formed alike).
    M1: the recursive-descent parser agrees with the denotation of rendered ASTs (ASTOK). *)
-EXTENDS RegexSem
+EXTENDS RegexAST
 CONSTANTS Tokens, MaxLen
 VARIABLES ts
 Init == ts = <<>>
 Next == Len(ts) < MaxLen /\ \E t \in Tokens : ts' = Append(ts, t)
 Spec == Init /\ [][Next]_ts
-(* ASTs of depth <= 2 over two symbols, rendered with minimal and with redundant parentheses *)
-Leaf == { [t |-> "sym", s |-> "a"], [t |-> "sym", s |-> "b"], [t |-> "eps"] }
-Un(X) == { [t |-> "star", x |-> x] : x \in X }
-Bin(X, Y) == { [t |-> b, l |-> x, r |-> y] : b \in {"cat", "alt"}, x \in X, y \in Y }
-D1 == Leaf \cup Un(Leaf) \cup Bin(Leaf, Leaf)
-D2 == D1 \cup Un(Bin(Leaf, Leaf)) \cup Bin(D1, Leaf) \cup Bin(Leaf, D1)
-RECURSIVE Den(_,_), Render(_,_)
-Den(a, L) == CASE a.t = "sym" -> {<<"s:" \o a.s>>} [] a.t = "eps" -> {<<>>}
-               [] a.t = "star" -> RStar(Den(a.x, L), L)
-               [] a.t = "cat" -> RCat(Den(a.l, L), Den(a.r, L), L)
-               [] a.t = "alt" -> Den(a.l, L) \cup Den(a.r, L)
-Prec(a) == CASE a.t \in {"sym", "eps"} -> 3 [] a.t = "star" -> 3 [] a.t = "cat" -> 2 [] a.t = "alt" -> 1
-Wrap(a, need, full) == IF full \/ Prec(a) < need THEN <<"(">> \o Render(a, full) \o <<")">> ELSE Render(a, full)
-Render(a, full) == CASE a.t = "sym" -> <<a.s>> [] a.t = "eps" -> <<"$">>
-                     [] a.t = "star" -> (IF a.x.t \in {"sym", "eps"} /\ ~full THEN Render(a.x, full) ELSE <<"(">> \o Render(a.x, full) \o <<")">>) \o <<"*">>
-                     [] a.t = "cat" -> Wrap(a.l, 2, full) \o Wrap(a.r, 3, full)
-                     [] a.t = "alt" -> Wrap(a.l, 1, full) \o <<"|">> \o Wrap(a.r, 2, full)
 ASTOK == ts = <<>> => \A a \in D2 : \A full \in BOOLEAN :
             LET p == Parse(Render(a, full), 3) IN p.class = "WF" /\ p.lang = Den(a, 3)
 =============================================================================
